@@ -23,6 +23,7 @@ import (
 	_ "github.com/bmeg/grip/kvi/leveldb"
 	_ "github.com/bmeg/grip/kvi/pebbledb"
 	"google.golang.org/protobuf/encoding/protojson"
+	"google.golang.org/protobuf/types/known/structpb"
 	"verif/internal/model"
 	"verif/internal/pbt"
 )
@@ -185,4 +186,122 @@ func Cleanup() {
 	if workDir != "" {
 		os.RemoveAll(workDir)
 	}
+}
+
+func mustStruct(m map[string]interface{}) *structpb.Struct {
+	s, err := structpb.NewStruct(model.CopyMap(m))
+	if err != nil {
+		panic(err)
+	}
+	return s
+}
+
+func toVertex(el *model.Element) *gripql.Vertex {
+	return &gripql.Vertex{Gid: el.ID, Label: el.Label, Data: mustStruct(el.Data)}
+}
+
+func toEdge(el *model.Element) *gripql.Edge {
+	return &gripql.Edge{Gid: el.ID, Label: el.Label, From: el.From, To: el.To, Data: mustStruct(el.Data)}
+}
+
+// ExpectedRow builds the wire row the reference traveler stands for.
+func ExpectedRow(t *model.Trav, ty model.Type) *gripql.QueryResult {
+	switch ty {
+	case model.TVertex:
+		return &gripql.QueryResult{Result: &gripql.QueryResult_Vertex{Vertex: toVertex(t.Cur)}}
+	case model.TEdge:
+		return &gripql.QueryResult{Result: &gripql.QueryResult_Edge{Edge: toEdge(t.Cur)}}
+	case model.TCount:
+		return &gripql.QueryResult{Result: &gripql.QueryResult_Count{Count: uint32(t.Count)}}
+	case model.TRender:
+		v, err := structpb.NewValue(t.Render)
+		if err != nil {
+			panic(err)
+		}
+		return &gripql.QueryResult{Result: &gripql.QueryResult_Render{Render: v}}
+	case model.TPath:
+		l := make([]interface{}, len(t.Path))
+		for i, p := range t.Path {
+			m := map[string]interface{}{}
+			if p.Vertex != "" {
+				m["vertex"] = p.Vertex
+			} else if p.Edge != "" {
+				m["edge"] = p.Edge
+			}
+			l[i] = m
+		}
+		lv, err := structpb.NewList(l)
+		if err != nil {
+			panic(err)
+		}
+		return &gripql.QueryResult{Result: &gripql.QueryResult_Path{Path: lv}}
+	case model.TSelection:
+		sel := map[string]*gripql.Selection{}
+		for k, el := range t.Sel {
+			if el.Edge {
+				sel[k] = &gripql.Selection{Result: &gripql.Selection_Edge{Edge: toEdge(el)}}
+			} else {
+				sel[k] = &gripql.Selection{Result: &gripql.Selection_Vertex{Vertex: toVertex(el)}}
+			}
+		}
+		return &gripql.QueryResult{Result: &gripql.QueryResult_Selections{Selections: &gripql.Selections{Selections: sel}}}
+	}
+	panic("gripx: no row form for type " + ty.String())
+}
+
+// ExpectedRows renders the reference result canonically (sorted).
+func ExpectedRows(travs []*model.Trav, ty model.Type) []string {
+	out := make([]string, len(travs))
+	for i, t := range travs {
+		out[i] = RowCanon(ExpectedRow(t, ty))
+	}
+	sort.Strings(out)
+	return out
+}
+
+// DiffMultiset describes the difference between two sorted multisets of rows ("" if equal).
+func DiffMultiset(got, want []string) string {
+	cnt := map[string]int{}
+	for _, r := range want {
+		cnt[r]++
+	}
+	for _, r := range got {
+		cnt[r]--
+	}
+	var missing, extra []string
+	for r, n := range cnt {
+		for ; n > 0; n-- {
+			missing = append(missing, r)
+		}
+		for ; n < 0; n++ {
+			extra = append(extra, r)
+		}
+	}
+	if len(missing) == 0 && len(extra) == 0 {
+		return ""
+	}
+	sort.Strings(missing)
+	sort.Strings(extra)
+	clip := func(a []string) []string {
+		if len(a) > 4 {
+			return append(a[:4:4], fmt.Sprintf("… (%d more)", len(a)-4))
+		}
+		return a
+	}
+	return fmt.Sprintf("got %d rows, want %d; missing=%v extra=%v", len(got), len(want), clip(missing), clip(extra))
+}
+
+// SubMultiset reports whether every row of sub occurs in super at least as often.
+func SubMultiset(sub, super []string) bool {
+	cnt := map[string]int{}
+	for _, r := range super {
+		cnt[r]++
+	}
+	for _, r := range sub {
+		cnt[r]--
+		if cnt[r] < 0 {
+			return false
+		}
+	}
+	return true
 }
